@@ -36,6 +36,18 @@ type fiatParam struct {
 	wrapped  bool // struct with one limb-array field (field.Element.E, Scalar.S)
 }
 
+// fiatSig describes a translated function for callers: its parameters in Go order (which are inputs of the Lean
+// definition, which are written pointer parameters) and whether it returns a value.
+type fiatSig struct {
+	lean   string
+	params []fiatParam
+	input  []bool
+	output []bool
+	ret    bool
+}
+
+var fiatSigs = map[string]map[string]*fiatSig{} // package -> Go function name -> signature
+
 type fiatTr struct {
 	fset     *token.FileSet
 	pkg      string
@@ -287,7 +299,12 @@ func (t *fiatTr) stmt(s ast.Stmt) {
 			for _, nm := range vs.Names {
 				switch ty := vs.Type.(type) {
 				case *ast.Ident:
-					t.cur[nm.Name] = "0"
+					switch ty.Name {
+					case "MontgomeryDomainFieldElement", "NonMontgomeryDomainFieldElement":
+						t.arrays[nm.Name] = 4
+					default:
+						t.cur[nm.Name] = "0"
+					}
 				case *ast.ArrayType:
 					n, _ := strconv.Atoi(ty.Len.(*ast.BasicLit).Value)
 					t.arrays[nm.Name] = n
@@ -352,6 +369,12 @@ func (t *fiatTr) stmt(s ast.Stmt) {
 			t.fail(s, "expr stmt")
 		}
 		id, ok := call.Fun.(*ast.Ident)
+		if ok && id.Name != "cmovznzU64" {
+			if sg := fiatSigs[t.pkg][id.Name]; sg != nil {
+				t.callStmt(call, sg, s)
+				return
+			}
+		}
 		if !ok || id.Name != "cmovznzU64" || len(call.Args) != 4 {
 			t.fail(s, "call statement")
 		}
@@ -362,8 +385,16 @@ func (t *fiatTr) stmt(s ast.Stmt) {
 		v := "cmovznzU64 " + atom(t.expr(call.Args[1])) + " " + atom(t.expr(call.Args[2])) + " " + atom(t.expr(call.Args[3]))
 		t.assignTo(ad.X, v, s)
 	case *ast.ReturnStmt:
+		if len(x.Results) == 0 {
+			return
+		}
 		if len(x.Results) != 1 {
 			t.fail(s, "return arity")
+		}
+		if id, ok := x.Results[0].(*ast.Ident); ok {
+			if p, ok := t.pmap[id.Name]; ok && p.isPtr {
+				return // `return e`: the (written) receiver itself
+			}
 		}
 		t.ret = t.expr(x.Results[0])
 	default:
@@ -371,8 +402,161 @@ func (t *fiatTr) stmt(s ast.Stmt) {
 	}
 }
 
+// locOf resolves an argument that denotes a memory location: `&x`, `&x.E`, `(*[4]uint64)(&x.E)`, `p` (pointer
+// parameter), `(*[4]uint64)(p)`. Returns the base name (a parameter, local array or local scalar) or "".
+func (t *fiatTr) locOf(e ast.Expr) string {
+	switch x := e.(type) {
+	case *ast.ParenExpr:
+		return t.locOf(x.X)
+	case *ast.UnaryExpr:
+		if x.Op == token.AND {
+			if id := t.baseIdent(x.X); id != nil {
+				return id.Name
+			}
+		}
+	case *ast.CallExpr: // conversion (*[4]uint64)(…)
+		if len(x.Args) == 1 {
+			if pe, ok := x.Fun.(*ast.ParenExpr); ok {
+				if _, ok := pe.X.(*ast.StarExpr); ok {
+					return t.locOf(x.Args[0])
+				}
+			}
+		}
+	case *ast.Ident:
+		if p, ok := t.pmap[x.Name]; ok && p.isPtr {
+			return x.Name
+		}
+	}
+	return ""
+}
+
+// arrayValue is the current content of the n-limb location `base` as a Lean term
+func (t *fiatTr) arrayValue(base string, n int, node ast.Node) string {
+	if p, ok := t.pmap[base]; ok && p.isPtr && t.firstW != "" && t.firstW != base {
+		t.fail(node, "read of pointer parameter "+base+" after write to "+t.firstW+" (aliasing-unsafe)")
+	}
+	var ls []string
+	same := true
+	for j := 0; j < n; j++ {
+		key := fmt.Sprintf("%s[%d]", base, j)
+		v, ok := t.cur[key]
+		if !ok {
+			if _, isArr := t.arrays[base]; isArr {
+				v = "0"
+			} else {
+				t.fail(node, "unknown location "+key)
+			}
+		}
+		if v != fmt.Sprintf("%s.l%d", base, j) {
+			same = false
+		}
+		ls = append(ls, v)
+	}
+	if same {
+		return base
+	}
+	return "⟨" + strings.Join(ls, ", ") + "⟩"
+}
+
+// callStmt: `F(a0, a1, …)` where F is an already translated function of the same package. Inputs are read first
+// (the callee itself refuses reads after its first write), then every written pointer parameter of F is rebound.
+func (t *fiatTr) callStmt(call *ast.CallExpr, sg *fiatSig, node ast.Node) {
+	if len(call.Args) != len(sg.params) {
+		t.fail(node, "call arity")
+	}
+	var ins []string
+	for i, p := range sg.params {
+		if !sg.input[i] {
+			continue
+		}
+		if (p.isPtr || p.arrayVal) && p.n > 0 {
+			base := t.locOf(call.Args[i])
+			if base == "" {
+				t.fail(node, "array argument is not a location")
+			}
+			ins = append(ins, atom(t.arrayValue(base, p.n, node)))
+		} else if p.isPtr {
+			base := t.locOf(call.Args[i])
+			if base == "" {
+				t.fail(node, "scalar pointer argument")
+			}
+			if v, ok := t.cur["*"+base]; ok {
+				ins = append(ins, atom(v))
+			} else {
+				ins = append(ins, atom(t.cur[base]))
+			}
+		} else {
+			ins = append(ins, atom(t.expr(call.Args[i])))
+		}
+	}
+	t.np++
+	r := fmt.Sprintf("c%d", t.np)
+	t.emit(r, strings.TrimSpace(sg.lean+" "+strings.Join(ins, " ")))
+	nout := 0
+	for i := range sg.params {
+		if sg.output[i] {
+			nout++
+		}
+	}
+	if sg.ret {
+		nout++ // the return value of a call statement is discarded, but it is a component of the tuple
+	}
+	k := 0
+	comp := func() string {
+		defer func() { k++ }()
+		if nout == 1 {
+			return r
+		}
+		s := r
+		for j := 0; j < k; j++ {
+			s += ".2"
+		}
+		if k < nout-1 {
+			s += ".1"
+		}
+		return s
+	}
+	for i, p := range sg.params {
+		if !sg.output[i] {
+			continue
+		}
+		val := comp()
+		base := t.locOf(call.Args[i])
+		if base == "" {
+			t.fail(node, "output argument is not a location")
+		}
+		if p.n > 0 {
+			if q, ok := t.pmap[base]; ok && q.isPtr {
+				if t.firstW == "" {
+					t.firstW = base
+				}
+				t.written[base] = true
+			} else if _, ok := t.arrays[base]; !ok {
+				t.fail(node, "output into unknown array "+base)
+			}
+			for j := 0; j < p.n; j++ {
+				t.cur[fmt.Sprintf("%s[%d]", base, j)] = fmt.Sprintf("%s.l%d", atom(val), j)
+			}
+		} else {
+			if q, ok := t.pmap[base]; ok && q.isPtr {
+				if t.firstW == "" {
+					t.firstW = base
+				}
+				t.written[base] = true
+				t.cur["*"+base] = val
+			} else {
+				t.cur[base] = val
+			}
+		}
+	}
+}
+
 // translateFiat emits one Lean definition for fn.
 func translateFiat(fset *token.FileSet, pkg string, fn *ast.FuncDecl, helpers map[string]bool, consts map[string][]string) string {
+	return translateFiatAs(fset, pkg, fn, helpers, consts, lname(fn.Name.Name))
+}
+
+func translateFiatAs(fset *token.FileSet, pkg string, fn *ast.FuncDecl, helpers map[string]bool, consts map[string][]string, leanName string) string {
 	t := &fiatTr{fset: fset, pkg: pkg, fname: fn.Name.Name, pmap: map[string]*fiatParam{}, cur: map[string]string{},
 		written: map[string]bool{}, helpers: helpers, consts: map[string][]string{}, arrays: map[string]int{}}
 	for k, v := range consts {
@@ -481,14 +665,25 @@ func translateFiat(fset *token.FileSet, pkg string, fn *ast.FuncDecl, helpers ma
 	}
 	// drop pointer params that are never read and only written (pure outputs) from the signature
 	var sig2 []string
+	fs := &fiatSig{lean: leanName, ret: t.ret != ""}
 	for i, p := range t.params {
+		fs.params = append(fs.params, p)
+		fs.output = append(fs.output, p.isPtr && t.written[p.name])
 		if p.isPtr && t.written[p.name] && !t.paramRead(p) {
+			fs.input = append(fs.input, false)
 			continue
 		}
+		fs.input = append(fs.input, true)
 		sig2 = append(sig2, sig[i])
 	}
+	if fn.Recv == nil {
+		if fiatSigs[pkg] == nil {
+			fiatSigs[pkg] = map[string]*fiatSig{}
+		}
+		fiatSigs[pkg][fn.Name.Name] = fs
+	}
 	var b strings.Builder
-	fmt.Fprintf(&b, "def %s %s : %s :=\n", lname(fn.Name.Name), strings.Join(sig2, " "), strings.Join(tys, " × "))
+	fmt.Fprintf(&b, "def %s %s : %s :=\n", leanName, strings.Join(sig2, " "), strings.Join(tys, " × "))
 	for _, l := range t.lines {
 		b.WriteString(l + "\n")
 	}
